@@ -19,6 +19,7 @@ import io
 import json
 import os
 import sys
+import zlib
 import re
 
 from harness import core
@@ -53,7 +54,7 @@ DOCS = [
     {"n": {"p": 1, "q": {"r": 1}}, "x": 2, "w": None}, {"n": {"q": {"r": {"t": 1}}}}, {"n": {"q": {"r": {"t": 2}}}},
 ]
 KEY_SETS = [[], ["x"], ["n.p"], ["n.q.r"], ["q.r"], ["x", "n.p", "n.q.r"], ["n"], ["z", "y"], ["n.q.r.t"], ["r.t"]]
-KEY_REGEX = ["x", "n", r"n\.q", "q", ".*r$", "n.p", "zz", "", r".*\.t"]
+KEY_REGEX = ["x", "n", r"n\.q", "q", ".*r$", "n.p", "zz", "", r".*\.t", ".*"]
 STRATEGIES = [None, "always", "never", "update", "custom"]
 DOC_SYNCS = ["default", "bykey_fn", "bykey_re", "update", "no_sync", "copy"]
 
@@ -206,6 +207,8 @@ def gen_case(rng, focus="c13"):
         opts["parallel"] = rng.choice([False, False, False, 2, True])
     entry = rng.choice(["Project.sync", "sync_projects", "Project.sync", "Job.sync", "sync_jobs"])
     case = {"src": src, "dst": dst, "opts": opts, "entry": entry}
+    if entry == "Project.sync" and rng.random() < 0.25 and cli_expressible(opts):
+        case["via_cli"] = True      # the same call spelled as `signac sync SRC DST ...` (argument parsing and glue)
     if entry in ("Job.sync", "sync_jobs"):
         if not src["jobs"]:
             case["entry"] = "Project.sync"
@@ -352,6 +355,93 @@ def strategy_verdict(opts, relpath, src_mtime, dst_mtime):
     return None
 
 
+def cli_expressible(opts):
+    """the options `signac sync` can spell"""
+    if opts["strategy"] not in (None, "always", "never", "update"):
+        return False
+    if opts["doc_sync"] == "bykey_fn":
+        if opts.get("keys"):
+            return False            # only "no key" (--no-keys) is a finite set the command line can name
+    elif opts["doc_sync"] == "bykey_re":
+        if not opts.get("key_re") or opts["key_re"].startswith("-"):
+            return False
+    elif opts["doc_sync"] != "default":
+        return False
+    if opts.get("exclude") is not None and (not isinstance(opts["exclude"], str) or opts["exclude"].startswith("-")):
+        return False
+    sel = opts.get("selection")
+    if sel is not None and not sel[1]:
+        return False
+    return True
+
+
+def cli_argv(case, sroot, droot):
+    opts = case["opts"]
+    argv = ["sync", sroot, droot]
+    flip = zlib.crc32(json.dumps(case, sort_keys=True).encode())
+    if opts["strategy"] == "update" and flip % 2:
+        argv.append("-u")
+    elif opts["strategy"] is not None:
+        argv += ["-s" if flip % 3 else "--strategy", opts["strategy"]]
+    if opts["recursive"]:
+        argv.append("-r" if flip % 5 else "--recursive")
+    if opts.get("exclude") is not None:
+        argv += ["-x", opts["exclude"]]
+    if opts["doc_sync"] == "bykey_fn":
+        argv.append("--no-keys")
+    elif opts["doc_sync"] == "bykey_re":
+        argv += (["--all-keys"] if opts["key_re"] == ".*" and flip % 2 else ["-k", opts["key_re"]])
+    if not opts["check_schema"]:
+        argv.append("-m" if flip % 7 else "--force")
+    if opts["dry_run"]:
+        argv.append("-n")
+    if opts["deep"]:
+        argv.append("-I")
+    sel = opts.get("selection")
+    if sel is not None:
+        argv += ["-j"] + [job_id(i) for i in sel[1]]
+    if opts["parallel"]:
+        argv += ["--parallel"] + ([str(opts["parallel"])] if opts["parallel"] is not True else [])
+    return argv
+
+
+def _run_cli(case, sroot, droot):
+    """`signac sync ...` in-process; the exception Project.sync raised (the command prints a message and exits 1)
+    is recorded by a spy around the method, so that outcome and payload are compared exactly."""
+    import signac
+    import signac.__main__ as M
+
+    seen = []
+    orig = signac.Project.sync
+
+    def spy(self, *a, **k):
+        try:
+            return orig(self, *a, **k)
+        except Exception as e:  # noqa: BLE001
+            seen.append(e)
+            raise
+    out, err = io.StringIO(), io.StringIO()
+    old_argv = sys.argv
+    code = 0
+    signac.Project.sync = spy
+    try:
+        sys.argv = ["signac"] + cli_argv(case, sroot, droot)
+        with contextlib.redirect_stdout(out), contextlib.redirect_stderr(err):
+            try:
+                M.main()
+            except SystemExit as e:
+                code = e.code if isinstance(e.code, int) else (0 if e.code is None else 1)
+    finally:
+        sys.argv = old_argv
+        signac.Project.sync = orig
+    if seen:
+        raise seen[-1]
+    if code != 0:
+        raise RuntimeError("signac sync exited with %r without an exception from Project.sync: %s" % (
+            code, err.getvalue().strip()[-300:]))
+    return out.getvalue()
+
+
 LAST_ASKED = []   # file names the file strategy of the last parallel real call was consulted about
 
 
@@ -440,7 +530,9 @@ def _run_real_inner(case, sroot, droot):
     out = io.StringIO()
     try:
         with contextlib.redirect_stdout(out):
-            if entry in ("Project.sync", "sync_projects"):
+            if case.get("via_cli"):
+                out.write(_run_cli(case, sroot, droot))
+            elif entry in ("Project.sync", "sync_projects"):
                 sel = opts.get("selection")
                 if sel is not None:
                     ids = [job_id(i) for i in sel[1]]
@@ -1128,7 +1220,7 @@ def _dst_only_keys(s, d0, d1, where, path, nested=True):
 # ----------------------------------------------------------------------------
 def result(o, fails, model, impl):
     case, opts = o.case, o.case["opts"]
-    tags = ["entry=" + case["entry"], "outcome=" + o.kind1, "strategy=%s" % opts["strategy"],
+    tags = ["entry=" + (case["entry"] if not case.get("via_cli") else "signac-sync-command-line"), "outcome=" + o.kind1, "strategy=%s" % opts["strategy"],
             "doc_sync=" + opts["doc_sync"], "recursive=%s" % opts["recursive"],
             "exclude=%s" % (opts["exclude"] is not None), "selection=%s" % (opts["selection"] is not None),
             "dry_run=%s" % opts["dry_run"], "deep=%s" % opts["deep"], "parallel=%s" % opts["parallel"],
